@@ -9,8 +9,9 @@
        regular expression pattern in re2 syntax"; an unanchored pattern may match anywhere) — the
        regular-expression engine is the oracle `re_match`;
      - intDiv (truncating), + - * % on integers;
-     - bitShiftLeft(c, i) on a UInt8 condition keeps the width of its first argument (bits >= 8 are
-       lost), the sum of the shifted conditions is exact, groupBitOr is the bitwise OR over the group;
+     - bitShiftLeft(toUInt64(c), i) keeps the width of its first argument (bits >= 64 are lost; before
+       fix 052673d the argument was the UInt8 condition itself), the sum of the shifted conditions is exact,
+       groupBitOr is the bitwise OR over the group;
      - SELECT aliases are visible in WHERE / GROUP BY / ORDER BY and win over columns of the same name;
      - arrayExists(x -> c, arr) binds x.1, x.2 to the tuple elements; splitByChar(':', s)[k] is 1-based.
    Executable definitions only. *)
@@ -154,7 +155,7 @@ Section EVAL.
     end.
 
   (* ---- aggregate level: HAVING over the rows of one group ---- *)
-  Definition shl8 (b : Z) (i : N) : N := N.modulo (N.shiftl (Z.to_N b) i) 256.
+  Definition shl8 (b : Z) (i : N) : N := N.modulo (N.shiftl (Z.to_N b) i) (2 ^ 64).   (* bitShiftLeft(toUInt64(c), i) *)
   Fixpoint bitset_row (cl : list expr) (i : N) (rho : env) : option N :=
     match cl with
     | [] => Some 0%N
@@ -325,7 +326,7 @@ Section READING.
   Fixpoint rowmask (cs : list clause) (i : N) (r : ginrow) : N :=
     match cs with
     | [] => 0%N
-    | c :: cs' => (N.modulo (N.shiftl (b2n (eval_clause c r)) i) 256 + rowmask cs' (i + 1) r)%N
+    | c :: cs' => (N.modulo (N.shiftl (b2n (eval_clause c r)) i) (2 ^ 64) + rowmask cs' (i + 1) r)%N
     end.
 
   Definition where_ok (D t : Z) (cs : list clause) (r : ginrow) : bool :=
